@@ -1,6 +1,6 @@
 (* C08 -- Corrupt scan-line times are repaired, and times are always returned.
    Statements only; proofs in Proofs/P_C08.v and Proofs/P_C03.v. *)
-From Coq Require Import ZArith List Bool Arith.
+From Coq Require Import ZArith List Bool Arith Lia.
 From PV Require Import Median Calendar M_Times P_C03 P_C08.
 Import ListNotations.
 Open Scope Z_scope.
@@ -66,3 +66,25 @@ Print Assumptions C08_fallback.
 Print Assumptions C08_stage2_repairs.
 Print Assumptions C08_repairs_refuted.
 Print Assumptions C08_repairs_partial.
+
+(* non-vacuity of the partial statement: a 40-line GAC pass from 2001-06-14 10:00:00 whose lines 9, 10 and 23 carry garbage
+   milliseconds meets the majority hypothesis (all lines near the header agree on the pass's offset after stage 1), and
+   every line is returned exactly *)
+Definition g_nums := zrange 1 40.
+Definition g_t0 := 992512800000.
+Definition g_truth := map (fun n => g_t0 + (n - 1) * 500) g_nums.
+Definition g_bad (n : Z) : bool := (n =? 9) || (n =? 10) || (n =? 23).
+Definition g_years := map (fun _ => 2001) g_nums.
+Definition g_jdays := map (fun _ => 165) g_nums.
+Definition g_msecs := map (fun n => if g_bad n then 36000000 + 7654321 + n else 36000000 + (n - 1) * 500) g_nums.
+Example C08_example :
+  let t1 := stage1_times ex_tp g_nums g_years g_jdays g_msecs in
+  let near := near_of ex_tp ex_th g_nums t1 g_t0 in
+  monotone g_nums = true /\
+  (2 * count_occ Z.eq_dec near (U * g_t0)%Z > length near)%nat /\
+  (min_frac_num ex_th * Z.of_nat (length g_nums) <= Z.of_nat (length near) * min_frac_den ex_th) /\
+  forallb (fun n => (U * (g_t0 + (n - 1) * 500) =? (n - 1) * period_u ex_tp + U * g_t0)) g_nums = true /\
+  get_times ex_tp ex_th g_nums g_years g_jdays g_msecs (Some g_t0) = g_truth.
+Proof.
+  vm_compute. split; [reflexivity|]. split; [lia|]. split; [intros H; discriminate H|]. split; reflexivity.
+Qed.
